@@ -35,6 +35,7 @@ type c18Setup struct {
 	wrapKind string
 	path     string
 	baseKeys []string
+	nsPrefix string // "ns1/" when the wrapping request was made inside the child namespace
 }
 
 type c18Result struct {
@@ -66,11 +67,22 @@ func respText(resp *logical.Response) string {
 	return s
 }
 
+// c18Local strips the storage prefix of a namespace from a key.
+func c18Local(k string) string {
+	if strings.HasPrefix(k, "namespaces/") {
+		if p := strings.SplitN(k, "/", 3); len(p) == 3 {
+			return p[2]
+		}
+	}
+	return k
+}
+
 func c18TrackedKeys(s *Sys) []string {
 	var out []string
 	for k := range s.Phys.Snapshot() {
-		if strings.HasPrefix(k, "sys/token/") && !strings.HasPrefix(k, "sys/token/salt") ||
-			strings.HasPrefix(k, "sys/expire/") || strings.Contains(k, "/response") {
+		l := c18Local(k)
+		if strings.HasPrefix(l, "sys/token/") && !strings.HasPrefix(l, "sys/token/salt") ||
+			strings.HasPrefix(l, "sys/expire/") || strings.Contains(k, "/response") {
 			out = append(out, k)
 		}
 	}
@@ -88,9 +100,20 @@ func c18Build(t *testing.T, wrapKind string) *c18Setup {
 	third := s.CreateToken(s.Root, map[string]interface{}{"policies": []string{"p18"}, "ttl": "1h"})
 	st := &c18Setup{third: third, wrapKind: wrapKind}
 	st.baseKeys = c18TrackedKeys(s)
+	if wrapKind == "nssecret" {
+		// the wrapping request is made inside a child namespace: the wrapping token, its
+		// lease and its cubbyhole live there; the unwrap requests come from the root namespace
+		st.nsPrefix = "ns1/"
+		s.mkNS(t, "ns1/", false)
+		s.Must(s.Req(s.Root, logical.UpdateOperation, "ns1/sys/mounts/rec", map[string]interface{}{"type": "rec"}))
+		s.Must(s.Req(s.Root, logical.UpdateOperation, "ns1/rec/kv/a", map[string]interface{}{"value": c18Canary}))
+		st.baseKeys = c18TrackedKeys(s)
+	}
 	req := &logical.Request{ClientToken: s.Root, Connection: &logical.Connection{RemoteAddr: "127.0.0.1"},
 		WrapInfo: &logical.RequestWrapInfo{TTL: time.Hour}}
 	switch wrapKind {
+	case "nssecret":
+		req.Operation, req.Path = logical.ReadOperation, "ns1/rec/kv/a"
 	case "secret":
 		req.Operation, req.Path = logical.ReadOperation, "rec/kv/a"
 	case "list":
@@ -101,7 +124,7 @@ func c18Build(t *testing.T, wrapKind string) *c18Setup {
 		req.Operation, req.Path = logical.UpdateOperation, "auth/ra/login"
 		req.Data = map[string]interface{}{}
 	}
-	st.path = req.Path
+	st.path = strings.TrimPrefix(req.Path, "ns1/")
 	resp, err := s.Core.HandleRequest(rootCtx(), req)
 	if !OK(resp, err) || resp == nil || resp.WrapInfo == nil || resp.WrapInfo.Token == "" {
 		t.Fatalf("harness: wrapping request failed: %s", ErrText(resp, err))
@@ -159,9 +182,10 @@ func c18Do(s *Sys, st *c18Setup, kind string, tok string) c18Result {
 	case "revoke":
 		resp, err = s.Req(s.Root, logical.UpdateOperation, "auth/token/revoke-accessor", map[string]interface{}{"accessor": st.accessor})
 	case "cubby":
-		resp, err = s.Req(tok, logical.ReadOperation, "cubbyhole/response", nil)
+		// the token's own cubbyhole is addressed in the token's namespace
+		resp, err = s.Req(tok, logical.ReadOperation, st.nsPrefix+"cubbyhole/response", nil)
 	case "misuse":
-		resp, err = s.Req(tok, logical.ReadOperation, "rec/kv/a", nil)
+		resp, err = s.Req(tok, logical.ReadOperation, st.nsPrefix+"rec/kv/a", nil)
 	}
 	r.ok = OK(resp, err)
 	r.errTxt = ErrText(resp, err)
@@ -273,7 +297,7 @@ func c18Body(t *testing.T, st *c18Setup, kinds []string) sched.Body {
 				// On the unchanged tree this needs three preemptions when only two requests run
 				// (the quick tier covers all pairs up to two preemptions exhaustively and never
 				// sees it): with fewer it is not that finding and keeps the plain signature.
-				if len(extra) == 1 && strings.HasPrefix(extra[0], "sys/token/id/") && (len(kinds) >= 3 || x.Preemptions >= 3) {
+				if len(extra) == 1 && strings.HasPrefix(c18Local(extra[0]), "sys/token/id/") && (len(kinds) >= 3 || x.Preemptions >= 3) {
 					revoker := ""
 					for i, k := range kinds {
 						if k == "revoke" {
@@ -348,7 +372,7 @@ func TestVerifC18(t *testing.T) {
 		if vout.Thorough() {
 			hopsMax = 5
 		}
-		for _, wk := range []string{"secret", "list", "login"} {
+		for _, wk := range []string{"secret", "list", "login", "nssecret"} {
 			for hops := 1; hops <= hopsMax; hops++ {
 				rcount++
 				if !vout.Mine(rcount + 7) {
@@ -404,13 +428,19 @@ func TestVerifC18(t *testing.T) {
 		}
 	}
 
+	if os.Getenv("VERIF_PART") == "" || os.Getenv("VERIF_PART") == "F" {
+		c18PartF(t, res, get)
+	}
+	if os.Getenv("VERIF_PART") == "F" {
+		return
+	}
 	// ---- E: expiry.  The wrapping token's TTL runs out (stored lease times moved two
 	// hours back, restart, due leases handled) after every prefix of non-consuming calls:
 	// from then on nobody obtains the payload, the token is refused and no record of it or
 	// of its payload remains.
 	if os.Getenv("VERIF_PART") == "" || os.Getenv("VERIF_PART") == "E" {
 		ecount := 0
-		for _, wk := range []string{"secret", "list", "login"} {
+		for _, wk := range []string{"secret", "list", "login", "nssecret"} {
 			for _, pre := range [][]string{nil, {"lookup"}, {"rewrap"}, {"lookup", "rewrap"}, {"rewrap", "rewrap"}} {
 				ecount++
 				if !vout.Mine(ecount) {
@@ -479,19 +509,25 @@ func TestVerifC18(t *testing.T) {
 	}
 
 	item := 0
-	wraps := []string{"secret"}
+	wraps := []string{"secret", "nssecret"}
 	if vout.Thorough() {
-		wraps = []string{"secret", "list", "login"}
+		wraps = []string{"secret", "list", "login", "nssecret"}
 	}
 	for _, w := range wraps {
 		st := get(w)
 		for _, kinds := range multisets(c18Kinds, 2) {
+			if w == "nssecret" && !vout.Thorough() && !(kinds[0] == "unwrap3" || kinds[1] == "unwrap3") {
+				continue // quick tier: the cross-namespace pairs that contain a third-party unwrap
+			}
 			name := w + ":" + strings.Join(kinds, "+")
 			params := map[string]interface{}{"wrap": w, "kinds": kinds}
 			ex := exploreScenario(res, "c18", name, params, c18Body(t, st, kinds), bound, false, &item)
 			if ex > 0 && item%5 == 0 {
 				res.Sample(map[string]interface{}{"scenario": name, "executions_in_this_shard": ex})
 			}
+		}
+		if w == "nssecret" {
+			continue
 		}
 		if vout.Thorough() {
 			for _, kinds := range multisets([]string{"unwrap1", "unwrap3", "rewrap", "lookup", "revoke"}, 3) {
